@@ -151,6 +151,9 @@ func App(sort Sort, op string, args ...Term) Term {
 		sb.WriteString(a.S)
 	}
 	sb.WriteByte(')')
+	if sb.Len() > 4<<20 {
+		panic(fmt.Sprintf("verification condition term exceeds the 4 MiB cap (%d bytes): the function needs a loop invariant or a callee contract", sb.Len()))
+	}
 	return Term{S: sb.String(), Sort: sort}
 }
 
